@@ -395,7 +395,13 @@ func Run(r *hx.Run, replay []hx.Case) {
 			nw := 1 + r.Rng.Intn(12)
 			for w := 0; w < nw; w++ {
 				wl := r.Rng.Intn(14)
-				switch r.Rng.Intn(12) {
+				switch r.Rng.Intn(14) {
+				case 12:
+					// a long run of blanks (empty words)
+					sb.WriteString(strings.Repeat(" ", 60+r.Rng.Intn(40)))
+					wl = r.Rng.Intn(80)
+				case 13:
+					wl = 70 + r.Rng.Intn(6)
 				case 0:
 					wl = 0
 				case 1:
